@@ -1,0 +1,11 @@
+//go:build verif
+
+package message
+
+// verifKey is the key a verification hook stamps for a message; nil-safe.
+func verifKey(m *Message) string {
+	if m == nil {
+		return "<nil>"
+	}
+	return m.UUID
+}
